@@ -48,6 +48,24 @@ const ttmlSmall = `<?xml version="1.0" encoding="UTF-8"?>
 </tt>
 `
 
+// ttmlRate: a TTML document whose root carries the given frame rate (metadata inherited by other writers) and
+// that uses frame-based and tick-based time expressions.
+func ttmlRate(fr int, tick int) string {
+	attrs := fmt.Sprintf(` ttp:frameRate="%d"`, fr)
+	end2 := fmt.Sprintf("00:00:04:%02d", fr/2)
+	if tick > 0 {
+		attrs += fmt.Sprintf(` ttp:tickRate="%d"`, tick)
+		end2 = fmt.Sprintf("%dt", 5*tick)
+	}
+	return `<tt xmlns="http://www.w3.org/ns/ttml" xmlns:ttp="http://www.w3.org/ns/ttml#parameter" xml:lang="en"` + attrs + `>
+ <body><div>
+  <p begin="00:00:01.000" end="00:00:02.500">first</p>
+  <p begin="3s" end="` + end2 + `">second<br/>line</p>
+ </div></body>
+</tt>
+`
+}
+
 // writeSTL produces STL bytes through the library's writer (used only as INPUT bytes for schedule /
 // fault / totality checks; the STL codec itself is judged by C05 with an independent encoder).
 func writeSTL(dsc string, fps int, n int) []byte {
@@ -115,6 +133,9 @@ func Small() []Doc {
 		{"ssa-bad-int", "ssa", []byte("[Script Info]\nPlayResX: abc\n"), false},
 		{"ttml-small", "ttml", []byte(ttmlSmall), true},
 		{"ttml-crlf", "ttml", []byte(crlf(ttmlSmall)), true},
+		{"ttml-framerate-24", "ttml", []byte(ttmlRate(24, 0)), true},
+		{"ttml-framerate-30", "ttml", []byte(ttmlRate(30, 0)), true},
+		{"ttml-framerate-50-ticks", "ttml", []byte(ttmlRate(50, 90000)), true},
 		{"ttml-invalid", "ttml", []byte("<tt><body><div><p begin=\"1s\" end=\"2s\">x</p></div></body>"), false},
 		{"stl-open-25-2", "stl", writeSTL("0", 25, 2), true},
 		{"stl-open-30-1", "stl", writeSTL("0", 30, 1), true},
